@@ -1,5 +1,6 @@
 CONSTANTS
   Mod <- TheMod
+  ByteExact = TRUE
   ModIdx = 1
   PlanSet = "rt"
   Depth = 2
